@@ -352,6 +352,37 @@ def bounded(tier, seed):
                     return None
                 run.case('C04:stack_files (legacy functional form)', (si, d, k), t2)
     # multi-file open helpers
+    # variables of other kinds: fixed-width text (bytes and unicode), integers of several widths, booleans -- the stacked variable keeps
+    # the element type of the pieces and every value; a text variable without the stacked dimension equals the first file's
+    def typed_file(n, off):
+        f = P.PseudoNetCDFFile()
+        f.createDimension('site', n)
+        f.createDimension('k', 2)
+        ids = ['KDEN', 'KLAX', 'KJFK', 'KORD', 'KATL', 'KSEA', 'KBOS']
+        f.createVariable('site_id', 'S4', ('site',), values=np.array([ids[(off + i) % 7] for i in range(n)], dtype='S4'))
+        f.createVariable('label', 'U3', ('site',), values=np.array(['s%02d' % (off + i) for i in range(n)], dtype='U3'))
+        f.createVariable('kind', 'S5', ('k',), values=np.array(['urban', 'rural'], dtype='S5'))
+        f.createVariable('count', 'i2', ('site', 'k'), values=(np.arange(n * 2).reshape(n, 2) + 1000 * off).astype('i2'))
+        f.createVariable('big', 'i8', ('site',), values=(np.arange(n) + 2 ** 40 + off).astype('i8'))
+        f.createVariable('flag', '?', ('site',), values=(np.arange(n) + off) % 2 == 0)
+        return f
+    for lens in ((2, 3), (1, 1, 4), (3,)):
+        def t_typed(lens=lens):
+            fs = [typed_file(n, 10 * j) for j, n in enumerate(lens)]
+            g = fs[0].stack(fs[1:], 'site')
+            for vk in ('site_id', 'label', 'count', 'big', 'flag'):
+                ax = 0
+                exp = np.concatenate([np.asarray(x.variables[vk][...]) for x in fs], axis=ax)
+                got = np.asarray(g.variables[vk][...])
+                if got.dtype != exp.dtype:
+                    return 'variable %s: element type %s, the pieces have %s' % (vk, got.dtype, exp.dtype)
+                if got.shape != exp.shape or not np.array_equal(got, exp):
+                    return 'variable %s: values differ from the concatenation of the pieces (%r ... expected %r ...)' % (vk, got.ravel()[:3].tolist(), exp.ravel()[:3].tolist())
+            k0, k1 = np.asarray(fs[0].variables['kind'][...]), np.asarray(g.variables['kind'][...])
+            if k1.dtype != k0.dtype or not np.array_equal(k0, k1):
+                return 'variable kind (no stacked dimension) differs from the first file: %r vs %r' % (k1.tolist(), k0.tolist())
+            return None
+        run.case('C04:stack of text / integer / boolean variables', lens, t_typed)
     tmp = tempfile.mkdtemp(prefix='verif_c04_')
     try:
         spec = H.file_specs(tier, seed)[0]
@@ -396,7 +427,7 @@ def bounded(tier, seed):
     return run.result(
         rule='stack(split(f)) = f field by field for every composition of every dimension into 1..3 consecutive pieces; slice(stack) = piece; stack / stack_files / pncmfopen of '
              '2..4 different files = numpy.ma.concatenate in argument order',
-        bound='files of the C01 space, every dimension, every composition into <= 3 pieces, 2-4 stacked files')
+        bound='files of the C01 space, every dimension, every composition into <= 3 pieces, 2-4 stacked files; 1-3 files with S4 / U3 / S5 text, int16, int64 and boolean variables')
 
 
 def bounded_replay(p):
